@@ -119,13 +119,30 @@ func goEnv() []string {
 	return env
 }
 
+// zzvfFiles maps the virtual location (under /repo/zzvf) of every file of the harness
+// library (package zzvf and its sub-packages) to its real location under /verif/harness/zzvf.
+func zzvfFiles() map[string]string {
+	out := map[string]string{}
+	root := filepath.Join(verifDir, "harness", "zzvf")
+	filepath.Walk(root, func(p string, fi os.FileInfo, err error) error {
+		if err == nil && !fi.IsDir() && strings.HasSuffix(p, ".go") {
+			rel, _ := filepath.Rel(root, p)
+			out[filepath.Join(repoDir, "zzvf", rel)] = p
+		}
+		return nil
+	})
+	return out
+}
+
 func overlayMap(hfs []*HarnessFile) (map[string][]byte, error) {
 	ov := map[string][]byte{}
-	vf, err := os.ReadFile(filepath.Join(verifDir, "harness", "zzvf", "vf.go"))
-	if err != nil {
-		return nil, err
+	for virt, real := range zzvfFiles() {
+		b, err := os.ReadFile(real)
+		if err != nil {
+			return nil, err
+		}
+		ov[virt] = b
 	}
-	ov[filepath.Join(repoDir, "zzvf", "vf.go")] = vf
 	for _, h := range hfs {
 		ov[h.Virtual] = h.Src
 	}
